@@ -7,10 +7,9 @@ Require Import Nib.Gen.C16Facts.
 Definition current_facts : facts := {|
   f_sites := gate_sites;
   f_handlers := handlers;
-  f_check_permissions_formula := check_permissions_formula;
-  f_check_permissions_nil_returns := check_permissions_nil_returns;
-  f_sender_has_permission_formula := sender_has_permission_formula;
-  f_validate_root_formula := validate_root_formula |}.
+  f_check_permissions_accepts := check_permissions_accepts;
+  f_sender_has_permission_accepts := sender_has_permission_accepts;
+  f_validate_root_accepts := validate_root_accepts |}.
 
 (** The current tree gates exactly the operations the model gates, each gate call precedes every
     state write of its function, and the gate functions have the modelled normal form.  A new gated
